@@ -480,6 +480,12 @@ def main(argv):
         seed = int(hashlib.sha256(os.environ["VERIF_SEED"].encode()).hexdigest()[:6], 16)
     seed = abs(seed) % 1000000 or 1
     t0 = time.time()
+    # one invocation per property at a time: build, run and stats directories are keyed by the property id only
+    import fcntl
+    os.makedirs(os.path.join(BUILD, pid), exist_ok=True)
+    lockf = open(os.path.join(BUILD, pid, ".lock"), "w")
+    fcntl.flock(lockf, fcntl.LOCK_EX)
+    t0 = time.time()
     bdir = prepare(pid, prop)
     if a.replay:
         return do_replay(pid, prop, a.replay, bdir)
